@@ -411,6 +411,18 @@ func resolveRoles(w *World) *Roles {
 		}
 	}
 	sort.Slice(ro.Dequeue, func(i, j int) bool { return ro.Dequeue[i].Pos() < ro.Dequeue[j].Pos() })
+	// the anchors of rules are analysed as themselves, never spliced into their callers
+	anchors := map[*ssa.Function]bool{}
+	for _, f := range []*ssa.Function{ro.Accept, ro.Start, ro.StartGo, ro.Admit, ro.Count, ro.RunPred, ro.PipeRunning, ro.DequeueDecision, ro.Completed, ro.CancelInt, ro.CancelAPI, ro.Expiry, ro.MarkCanceled, ro.Shutdown, ro.Save, ro.Load, ro.Replace, ro.Persist, ro.TaskChange, ro.StageChange, ro.GraphBuild} {
+		if f != nil {
+			anchors[f] = true
+		}
+	}
+	for _, f := range ro.Dequeue {
+		anchors[f] = true
+	}
+	w.noInline = func(f *ssa.Function) bool { return anchors[f] }
+	w.inlMemo = nil
 	return ro
 }
 
